@@ -1175,7 +1175,8 @@ MANIFEST = {
             "older handler issued from the callback of subscribe() (inside SUBSCRIBED processing on Twisted), "
             "and a callee variant (depth -2) in which the session holds registrations whose ids equal a "
             "subscription id / are held as registration only (an EVENT for such an id is a violation)."
-            " Handler callables of every kind (functions, coroutine functions, partials, callable instances, builtin bound methods); encoded EVENTs under a payload codec on exact, prefix and wildcard subscriptions; a handler unsubscribed earlier in the same dispatch is not invoked.",
+            " Handler callables of every kind (functions, coroutine functions, partials, callable instances, builtin bound methods); encoded EVENTs under a payload codec on exact, prefix and wildcard subscriptions; a handler unsubscribed earlier in the same dispatch is not invoked."
+            " Published kwargs named like the requested details argument; handlers attached through the Twisted Application API.",
     "note": "Trusted: ref/wamp_session.py SubscriptionModel, harness/wamp_l1.py. The harness reads "
             "session._subscriptions only to locate Subscription objects of decorated handlers and to "
             "compare table order. Latitude documented in ASSUMPTIONS (handler removed before its turn, "
